@@ -30,13 +30,20 @@ HERE = os.path.dirname(os.path.abspath(__file__))
 DEFECT_KEY = "FN-optout-exit"
 
 # --------------------------------------------------------------------------- mode
-def repaired(ctx):
-    """The pinned tree has the defect DESIGN.md section 9 #10.  The committed known-findings.txt
-    decides which code the check expects: a `fixed: property=C19` line = repaired apply_filters
-    (model with c_fixed = true, no exemption); otherwise the code as found (c_fixed = false)."""
-    if os.environ.get("VERIF_C19_REPAIRED") in ("0", "1"):      # for trying a repair on a scratch worktree
-        return os.environ["VERIF_C19_REPAIRED"] == "1"
-    return any("property=C19" in l for l in ctx.kf.fixed)
+def repaired(ctx, key=None, envname="VERIF_C19_REPAIRED"):
+    """The pinned tree has the defect DESIGN.md section 9 #10 (key FN-optout-exit) and the
+    exit-by-exception defect (key exit-by-exception-runpy-returns).  The committed known-findings.txt
+    decides which code the check expects: a `fixed: property=C19 ... <key> ...` line = the repaired
+    code (model with the repair, no exemption); otherwise the code as found."""
+    key = key or DEFECT_KEY
+    if os.environ.get(envname) in ("0", "1"):      # for trying a repair on a scratch worktree
+        return os.environ[envname] == "1"
+    return any("property=C19" in l and key in l for l in ctx.kf.fixed)
+
+
+def repaired2(ctx):
+    from props import c19_e2e
+    return repaired(ctx, c19_e2e.SYSEXIT_KEY, "VERIF_C19_REPAIRED2")
 
 
 # --------------------------------------------------------------------------- Coq literals
@@ -335,12 +342,12 @@ def case_json(k):
     return {kk: k[kk] for kk in ("env", "lib", "pymain", "funcs", "forest", "raw")}
 
 
-def evaluate(ctx, cases, fixed, name="cases"):
+def evaluate(ctx, cases, fixed, name="cases", fixed2=False):
     defs = "Definition cases : list case := [\n%s\n].\n" % ";\n".join(c_case(k) for k in cases)
     defs += "Definition wf (k : case) : bool := match k_raw k with [] => true | _ => false end.\n"
     fx = coq.coq_bool(fixed)
     res = coq.run_cases(ctx, name, PRE, defs, [
-        ("mismatch", "bad_indices (agrees %s) cases 0" % fx),
+        ("mismatch", "bad_indices (agrees %s %s) cases 0" % (fx, coq.coq_bool(fixed2))),
         ("violations", "bad_indices (fun k => negb (wf k) || ok_case k) cases 0"),
         ("unbalanced", "bad_indices (fun k => negb (wf k) || ok_balanced k) cases 0"),
         ("defect_class", "bad_indices (fun k => negb (wf k && in_defect_class k)) cases 0"),
@@ -354,7 +361,7 @@ def scripted(ctx, objdir, fixed):
     rng = ctx.rng
     impl = Impl(ctx, objdir)
     cases = [dict(WITNESS)]
-    n = ctx.n(260, 4000)
+    n = ctx.n(200, 3000)
     for i in range(n):
         # mixed -F/-N sets (where the defect class lives) only in a part of the cases; Coq decides exactly
         # (nobad) which well-formed cases are inside the defect class
@@ -457,7 +464,7 @@ def run(ctx):
     common_meta(ctx, fixed)
     objdir = setup(ctx)
     cases = scripted(ctx, objdir, fixed)
-    res = evaluate(ctx, cases, fixed)
+    res = evaluate(ctx, cases, fixed, fixed2=repaired2(ctx))
     for k in cases:
         ev = flatten(k["funcs"], k["forest"], []) + list(k["raw"])
         ctx.case(key=(k["env"], k["lib"], k["pymain"], json.dumps(k["funcs"], sort_keys=True), tuple(ev)),
@@ -492,7 +499,7 @@ def replay(ctx, obj):
     ctx.case(key="replay", sample={"hooks": k["hooks"]})
     # case 0 is the witness slot: keep it occupied by the witness so that indices mean the same
     cases = [k]
-    res = evaluate(ctx, cases, fixed, name="replay")
+    res = evaluate(ctx, cases, fixed, name="replay", fixed2=repaired2(ctx))
     if res is not None:
         viol = sorted(set(res["violations"]) | set(res["unbalanced"]))
         if viol:
